@@ -2,7 +2,8 @@
     Vocabulary: Diff/Model.v (the transcription of diff/*.go and function.go:diffEnv) and Diff/Spec.v. *)
 From Dawn Require Import Diff.Model Diff.Spec Diff.Proofs_Basic Diff.Proofs_Record Diff.Proofs_Search
      Diff.Proofs_Seq Diff.Proofs_Rounds Diff.Proofs_Value Diff.Proofs_Reason
-     Diff.SpecCost Diff.SpecGraph Diff.Proofs_Total Diff.Proofs_Min Diff.Proofs_Opt Diff.Proofs_Short Diff.Sched Diff.Proofs_Sched.
+     Diff.SpecCost Diff.SpecGraph Diff.Proofs_Total Diff.Proofs_Min Diff.Proofs_Opt Diff.Proofs_Short Diff.Sched Diff.Proofs_Sched
+     Diff.ModelEnv Diff.Proofs_EnvParts.
 Open Scope Z_scope.
 
 (** The diff of two values is empty exactly when they are equal (EqualDepth at the same depth says true). *)
@@ -125,6 +126,25 @@ Theorem reason_names_exactly_differing_keys : forall stamp route_size old new d 
      env_differs (Nat.pred depth1000) (dict_get (VStr k) old) (dict_get (VStr k) new)).
 Proof. exact reason_lemma. Qed.
 Print Assumptions reason_names_exactly_differing_keys.
+
+(** THE ENVIRONMENT OF A REAL TARGET.  The theorem above speaks of the keys diffEnv has a name for.  The two
+    environments of a target are not arbitrary dicts: both are built by envUnpickler (Diff/ModelEnv.v: seven parts
+    set by its case "FunctionCode", two more by its case "Function"), and the names written there are a second list,
+    separate from functionEnvKeys.  For environments built that way the reason names EVERY part that differs: each key
+    of either environment is a string that diffEnv has a name for and is named exactly when the environments differ
+    at it, and the reason is never the catch-all "environment changed" (which would name none of the parts that
+    differ).  The harness reads the keys of real targets' environments and compares them with [unpickled_env_keys]. *)
+Theorem reason_names_every_differing_part_of_a_function_environment :
+  forall stamp route_size (old_parts new_parts : env_parts) d r,
+  diff_depth route_size depth1000 (VDict (env_of old_parts)) (VDict (env_of new_parts)) = Ok (Some d) ->
+  diff_env stamp route_size (VDict (env_of old_parts)) (VDict (env_of new_parts)) = Ok (false, r) ->
+  (forall key, In key (map fst (env_of old_parts)) \/ In key (map fst (env_of new_parts)) ->
+     exists k, key = VStr k /\
+       (is_substr k r = true <->
+        env_differs (Nat.pred depth1000) (dict_get key (env_of old_parts)) (dict_get key (env_of new_parts)))) /\
+  r <> s_environment_changed.
+Proof. exact real_env_reason_lemma. Qed.
+Print Assumptions reason_names_every_differing_part_of_a_function_environment.
 
 (** In the remaining out-of-date cases (environments that cannot be compared within the depth limit, or that
     compare equal although the stamp changed, or that are not both dicts) diffEnv gives the generic reason
@@ -294,6 +314,31 @@ Example ex_reason :
   diff_env StampDiffers 2000000 (VDict [(VStr s_code, VInt 1); (VStr s_names, VInt 1)])
                    (VDict [(VStr s_code, VInt 2); (VStr s_names, VInt 1)]) = Ok (false, s_code ++ s_changed).
 Proof. vm_compute. reflexivity. Qed.
+
+(** "bound" is not "bound to something other than None": a key that holds None on both sides gets no edit, a value
+    that becomes None is a change (not a removal), a value that was None is a change (not an addition) *)
+Example ex_mapping_none_is_a_value :
+  let k := VStr s_code in let n := VStr s_names in
+  diff 2000000 (VDict [(k, VNone); (n, VInt 1)]) (VDict [(k, VNone); (n, VInt 2)]) =
+    Ok (Some (DMap (VDict [(k, VNone); (n, VInt 1)]) (VDict [(k, VNone); (n, VInt 2)])
+                   [(n, MRepl (DLit (VInt 1) (VInt 2)))])) /\
+  diff 2000000 (VDict [(k, VInt 1)]) (VDict [(k, VNone)]) =
+    Ok (Some (DMap (VDict [(k, VInt 1)]) (VDict [(k, VNone)]) [(k, MRepl (DLit (VInt 1) VNone))])) /\
+  diff 2000000 (VDict [(k, VNone)]) (VDict [(k, VInt 1)]) =
+    Ok (Some (DMap (VDict [(k, VNone)]) (VDict [(k, VInt 1)]) [(k, MRepl (DLit VNone (VInt 1)))])) /\
+  diff 2000000 (VDict [(k, VNone)]) (VDict []) =
+    Ok (Some (DMap (VDict [(k, VNone)]) (VDict []) [(k, MDel VNone)])).
+Proof. vm_compute. auto. Qed.
+
+(** a real environment in which only the captured variables differ: the reason names them *)
+Example ex_reason_free_variables :
+  let p v := {| p_names := VTuple []; p_constants := VTuple []; p_predeclared := VDict []; p_universals := VDict [];
+                p_functions := VTuple []; p_globals := VDict []; p_code := VBytes [1%N];
+                p_defaults := VDict []; p_freevars := VDict [(VStr [118%N], v)] |} in
+  diff_env StampDiffers 2000000 (VDict (env_of (p (VInt 1)))) (VDict (env_of (p VNone))) =
+    Ok (false, s_free_variables ++ s_changed) /\
+  map fst (env_of (p VNone)) = unpickled_env_keys.
+Proof. vm_compute. auto. Qed.
 
 (** totality and the size identity on a non-trivial instance: a route table of 3 points is exhausted (several
     rounds), and the script is still produced and accounts for all 4 + 5 elements *)
